@@ -141,8 +141,8 @@ func VH_C02_pair(vm *VM, inst int) {
 	// clause-head unification agrees, in both directions: h(T1', Vars1') stored, h(T2, Out) called (and T2 stored, T1
 	// called). The clause's own variables are exported through the second argument, so that what the head code binds
 	// them to is observed as well.
-	c02Head(vm, "c02h", t1, t2, env0)
-	c02Head(vm, "c02g", t2, t1, env0)
+	c02Head(vm, "c02h", c02Templates[i], t2, consts, env0)
+	c02Head(vm, "c02g", c02Templates[j], t1, consts, env0)
 }
 
 func c02TermVars(t Term, acc []Variable) []Variable {
@@ -162,13 +162,15 @@ func c02TermVars(t Term, acc []Variable) []Variable {
 	return acc
 }
 
-func c02Head(vm *VM, name string, head, goal Term, env0 *Env) {
-	ren := &rRename{}
-	cp := rCopy(head, nil, ren)
-	cvars := c02TermVars(cp, nil)
-	cvt := make([]Term, len(cvars))
-	for i, v := range cvars {
-		cvt[i] = v
+func c02Head(vm *VM, name string, headTemplate string, goal Term, consts *vConsts, env0 *Env) {
+	// the head is parsed again from its template, so that it has its own variables and exactly the representation
+	// the reader gives it (a double-quoted literal stays a string value, as in consulted text)
+	ht, hv, err := vParseQuery(vm, "p("+headTemplate+").")
+	verify(err == nil, "harness: head template does not parse")
+	cp := vSubst(ht, consts, 2).(Compound).Arg(0)
+	cvt := make([]Term, len(hv))
+	for k, pv := range hv {
+		cvt[k] = pv.Variable
 	}
 	okA, errA := Assertz(vm, NewAtom(name).Apply(cp, List(cvt...)), Success, nil).Force(context.Background())
 	verify(okA && errA == nil, "harness: assertz failed")
@@ -243,6 +245,9 @@ func VH_C02_rep(vm *VM, inst int) {
 	q, _, err := vParseQuery(vm, goal)
 	verify(err == nil, "harness: goal does not parse: "+goal)
 	r := vRunImpl(vm, q, nil, 1, nil)
+	if r.err != nil {
+		note("error", vErrString(r.err))
+	}
 	verify(r.status != "error", "representation goal raised an error: "+goal)
 	verify(r.status == "stopped", "two constructions of the same list are not unifiable/identical/order-equal: "+goal)
 }
